@@ -1,0 +1,64 @@
+//go:build verif
+
+package tsi
+
+import "sync/atomic"
+
+// Accessors for the C10 correspondence harness of /verif (series index exactness).
+// Add-only, compiled only with -tags verif. Nothing here changes behaviour of the index:
+//   - VerifTagFilter exposes what tagFilter.Init derived from a predicate atom (item prefix,
+//     or-suffixes, the suffix matcher, the rewritten value, the cache key), so the harness can
+//     compare the filter's derived matcher with InfluxQL's unanchored regexp matching;
+//   - VerifStopBackground stops the table's periodic raw-items flusher and part mergers
+//     (Table.StopMergeAndFlusher, the same call the index-move code uses), so that an index
+//     history only flushes where the harness says so.
+
+// VerifTagFilter wraps a tagFilter initialised exactly as the search code does.
+type VerifTagFilter struct {
+	tf tagFilter
+}
+
+// VerifNewTagFilter runs tagFilter.Init.
+func VerifNewTagFilter(name, key, value []byte, isNegative, isRegexp bool) (*VerifTagFilter, error) {
+	v := &VerifTagFilter{}
+	err := v.tf.Init(name, key, value, isNegative, isRegexp)
+	return v, err
+}
+
+// Prefix is the item prefix the filter seeks to (namespace byte, composite tag key, literal value prefix).
+func (v *VerifTagFilter) Prefix() []byte { return v.tf.prefix }
+
+// Value is tf.value after Init (a literal regexp is rewritten to its text).
+func (v *VerifTagFilter) Value() []byte { return v.tf.value }
+
+// OrSuffixes are the or-values looked up directly instead of scanning.
+func (v *VerifTagFilter) OrSuffixes() []string { return v.tf.orSuffixes }
+
+// IsEmptyValue reports tf.isEmptyValue.
+func (v *VerifTagFilter) IsEmptyValue() bool { return v.tf.isEmptyValue }
+
+// MatchSuffix is tagFilter.matchSuffix (b ends with tagSeparatorChar).
+func (v *VerifTagFilter) MatchSuffix(b []byte) (bool, error) { return v.tf.matchSuffix(b) }
+
+// CacheKey is tagFilter.Marshal, the key of the tag filter caches (without the generation prefix).
+func (v *VerifTagFilter) CacheKey() []byte { return v.tf.Marshal(nil) }
+
+// VerifTagItemPrefix is the prefix of every tag->tsids item of (name, key): namespace byte and
+// the marshalled composite tag key.
+func VerifTagItemPrefix(name, key []byte) []byte {
+	b := []byte{nsPrefixTagToTSIDs}
+	return marshalTagValue(b, marshalCompositeTagKey(nil, name, key))
+}
+
+// VerifMarshalTagValue is marshalTagValue (escaping + trailing separator).
+func VerifMarshalTagValue(dst, src []byte) []byte { return marshalTagValue(dst, src) }
+
+// VerifTagFilterKeyGen reads the generation that prefixes tag filter cache keys.
+func VerifTagFilterKeyGen() uint64 { return atomic.LoadUint64(&tagFilterKeyGen) }
+
+// VerifStopBackground stops the periodic raw-items flusher and the background part mergers.
+func (idx *MergeSetIndex) VerifStopBackground() {
+	if idx.isOpen && idx.tb != nil {
+		idx.tb.StopMergeAndFlusher()
+	}
+}
